@@ -447,6 +447,7 @@ def _run_http_exchange_init(
             call_id,
             app._token_key,
             auth,
+            method=method_name,
         )
         outcome.response_state_bytes = state_bytes
 
@@ -534,7 +535,7 @@ def _run_stream_exchange_sync(
             resolved_call,
             call_id,
             request_state_bytes,
-        ) = _unpack_and_recover_state(app, token, call_token, state_info, auth)
+        ) = _unpack_and_recover_state(app, token, call_token, state_info, auth, method_name)
         output_schema = resolved_call.output_schema
         input_schema = resolved_call.input_schema
         stream_id = resolved_call.stream_id
@@ -751,6 +752,7 @@ def _run_http_exchange_turn(
             call_id,
             app._token_key,
             auth,
+            method=method_name,
         )
         outcome.response_state_bytes = updated_state_bytes
         out.merge_data_metadata(pa.KeyValueMetadata({STATE_KEY: updated_token}))
@@ -1080,6 +1082,7 @@ def _run_http_producer_turn(
                         call_id,
                         app._token_key,
                         auth,
+                        method=method_name,
                     )
                     outcome.response_state_bytes = state_bytes
                     token_md: dict[bytes, bytes] = {STATE_KEY: token}
@@ -1127,6 +1130,7 @@ def _unpack_and_recover_state(
     call_token: bytes | None,
     state_info: _StateInfo,
     auth: AuthContext | None,
+    method_name: str | None = None,
 ) -> tuple[StreamState, _ResolvedCall, bytes, bytes]:
     """Open a cursor token, resolve its call, and rebuild the state object.
 
@@ -1155,6 +1159,9 @@ def _unpack_and_recover_state(
             concrete class is resolved from the numeric tag embedded in
             ``state_bytes``.
         auth: Authenticated identity for the current request.
+        method_name: The stream method whose endpoint received the request;
+            a cursor minted for any other method is rejected before its
+            state is deserialized.
 
     Returns:
         ``(state_object, resolved_call, call_id, state_bytes)``.
@@ -1171,7 +1178,9 @@ def _unpack_and_recover_state(
             both tampering and cross-principal replay).
 
     """
-    state_bytes, call_id = _open_cursor_token(token, app._token_key, _compute_aad(auth), app._token_ttl)
+    state_bytes, call_id = _open_cursor_token(
+        token, app._token_key, _compute_aad(auth), app._token_ttl, method=method_name
+    )
 
     now = time.time()
     resolved = app._call_state_cache.get(call_id, auth, now)
